@@ -227,16 +227,25 @@ def run(ctx):
                  "text": r["text"], "fails": fails[r["i"]]} for r in judged if r["i"] in fails]
     for n, b in enumerate(absent_bad):
         failures.append({"i": 10 ** 6 + n, "case": {"absent_site": b["site"]}, "obs": b, "text": "", "fails": ["AbsentNeverEmitted"]})
+    # calls in flight together on one event loop: an amendment must not write back a key another request changed meanwhile (spec/OneLoop.tla)
+    from drivers import oneloop
+    ol_failures, ol_cases = oneloop.run_oneloop(ctx, kinds={"setB_n", "setC_n", "delC_n", "nullB_n", "dry_n", "content_n", "setB_b"})
+    for fl in ol_failures:
+        fl["text"] = ""
+    failures.extend(ol_failures)
     return engine.report(
-        ctx, failures=failures, matchers=MATCHERS, evaluations=sum(len(r["obs"]) for r in judged) + 10,
+        ctx, failures=failures, matchers=MATCHERS, evaluations=sum(len(r["obs"]) for r in judged) + 10 + ol_cases,
         distinct_nontrivial=len(judged),
         rule="cases = reachable states of spec/Changes.tla: (document, request sequence) with requests DELETE / null / value over own "
              "and fresh top-level keys and META fields (constants in model_runs); every case is non-trivial (>= 1 request); plus 10 "
              "constructed ASTs with Absent at each kind of position",
         samples=[{"text": judged[k]["text"], "requests": judged[k]["case"]["reqs"], "routes_ok": [o["ok"] for o in judged[k]["obs"]]}
                  for k in (0, len(judged) // 2, len(judged) - 1)], exhaustive=True,
-        descr=lambda fl, clause: "requests=%s input=%r" % (json.dumps(fl["case"].get("reqs")), fl["text"][:140]),
-        assumptions=["keys that name a block or section are not requested (undocumented outcome)",
+        descr=lambda fl, clause: ("one_loop=%s observed=%s" % (json.dumps(fl["case"]["one_loop"]), json.dumps(fl["obs"])[:300])) if "one_loop" in fl["case"]
+        else "requests=%s input=%r" % (json.dumps(fl["case"].get("reqs")), fl["text"][:140]),
+        assumptions=["one loop: the requests of a case (spec/OneLoop.tla) are started together with asyncio.gather on one loop and one WriteTool, with a "
+                     "bounded rendezvous at os.replace; results and final values must equal the outcome of some serial order",
+                     "keys that name a block or section are not requested (undocumented outcome)",
                      "the frame condition is checked both on content (every unnamed node equal) and textually (the canonical chunk of "
                      "every unnamed top-level key is byte-identical before and after)",
                      "a dict value is requested as the list of single-pair maps it denotes in OCTAVE"])
